@@ -83,8 +83,9 @@ class VSlice(V):
 
 
 class VList(V):
-    def __init__(self, ref):
+    def __init__(self, ref, nd=False):
         self.ref = ref
+        self.nd = nd      # True: 1-D numpy array semantics for arithmetic (elementwise), otherwise a Python list
 
     def __repr__(self):
         return 'VList(#%d)' % self.ref
@@ -175,6 +176,8 @@ def parse_type(s):
             return name
         if name == 'list':
             return ('list', args()[0])
+        if name == 'arr':
+            return ('arr', args()[0])
         if name == 'tuple':
             return ('tuple', args())
         if name == 'opt':
@@ -225,8 +228,8 @@ def expand_opts(t):
     k = t[0]
     if k == 'opt':
         return expand_opts(t[1]) + ['none']
-    if k == 'list':
-        return [('list', x) for x in expand_opts(t[1])]
+    if k in ('list', 'arr'):
+        return [(k, x) for x in expand_opts(t[1])]
     if k == 'tuple':
         outs = [[]]
         for sub in t[1]:
@@ -247,8 +250,8 @@ def type_str(t):
     if isinstance(t, str):
         return t
     k = t[0]
-    if k == 'list':
-        return 'list[%s]' % type_str(t[1])
+    if k in ('list', 'arr'):
+        return '%s[%s]' % (k, type_str(t[1]))
     if k == 'tuple':
         return 'tuple[%s]' % ','.join(type_str(x) for x in t[1])
     if k == 'slice':
